@@ -177,3 +177,22 @@ Proof. split; vm_compute; reflexivity. Qed.
 Lemma ssizev2_overflow_accepted_witness :
   unmarshal TSV2 (45 :: dec 9223372036854775809) = Some (- 9223372036854775808)%Z.
 Proof. vm_compute. reflexivity. Qed.
+
+(** ** A bare number at or above 2^64 is rejected by the float path (never wrapped) *)
+Lemma sizev2_overflow_rejected n : 2 ^ 64 <= n -> unmarshal_v2 false (dec n) = None.
+Proof.
+  intro Hn. unfold unmarshal_v2, parse_bytes.
+  assert (Hnum : forallb is_numchar (dec n) = true)
+    by (eapply forallb_impl; [exact digit_numchar | apply dec_digits]).
+  rewrite take_while_all, drop_while_all by exact Hnum.
+  rewrite filter_digits by apply dec_digits. rewrite parse_decimal_dec.
+  destruct (fl_ge_pow2 (rnd n 1) 1024); [reflexivity|].
+  change (lookup (map to_lower (trim_space [])) size_table) with (Some 1).
+  destruct (rnd_ge64 n 1 ltac:(lia) ltac:(lia)) as [Hb Hge].
+  unfold fl_ge_pow2 in Hge. apply N.leb_le in Hge.
+  assert (V1 : veq (fl_of_N 1) 1) by (apply fl_of_N_veq; reflexivity).
+  destruct V1 as [V1a V1b].
+  destruct (rnd_ge64 (fst (rnd n 1) * fst (fl_of_N 1)) (snd (rnd n 1) * snd (fl_of_N 1))
+              ltac:(nia) ltac:(rewrite V1b; nia)) as [_ H2].
+  unfold fmul. rewrite H2. reflexivity.
+Qed.
